@@ -24,7 +24,7 @@ def check(pid, category, text, note, technique, design, thorough=True, engine="s
 check(
     "C20",
     "other",
-    "bounded symbolic verification of the constant-folding kernels: for every operator x operand-kind combination the real folding functions are executed on symbolic operands (z3 Int / Float64 / symbolic-length strings); obligations: no exception can escape for any operand value (totality) and every big-int/sequence operation grows its result by at most 2**24 bits/items over its largest operand (so cost is linear in the text). (K2) the two deferral loops of semantic analysis (semanal_main.process_top_level_function / process_top_levels) run from source against an oracle for semantic_analyze_target whose answers are solver-chosen at every call under the analyzer's no-deferral-in-final-iteration contract: they return within MAX_ITERATIONS rounds, never trip their assertions, report a hang only when the cap stopped them. (K3) the daemon's import-following update (Server.fine_grained_increment_follow_imports / find_reachable_changed_modules / direct_imports) on solver-chosen import graphs with cycles, root sets and changed files terminates and processes every reachable changed module exactly once. (K4b) nine type visitors and six type relations return on every recursive alias (pair); (K5) treetransform.TransformVisitor copies 16 construct snippets without exception and print-identically; (K4) ExpressionChecker.dangerous_comparison returns (no RecursionError) for every ordered pair of recursive alias types over set/frozenset/list/tuple/dict/Mapping/unions, built by the real front end. Narrow: folding kernels, deferral loops, the daemon work-list and the strict-equality recursion only - the scalar part of 'never an internal failure or hang'.",
+    "bounded symbolic verification of the constant-folding kernels: for every operator x operand-kind combination the real folding functions are executed on symbolic operands (z3 Int / Float64 / symbolic-length strings); obligations: no exception can escape for any operand value (totality) and every big-int/sequence operation grows its result by at most 2**24 bits/items over its largest operand (so cost is linear in the text). (K2) the two deferral loops of semantic analysis (semanal_main.process_top_level_function / process_top_levels) run from source against an oracle for semantic_analyze_target whose answers are solver-chosen at every call under the analyzer's no-deferral-in-final-iteration contract: they return within MAX_ITERATIONS rounds, never trip their assertions, report a hang only when the cap stopped them. (K3) the daemon's import-following update (Server.fine_grained_increment_follow_imports / find_reachable_changed_modules / direct_imports) on solver-chosen import graphs with cycles, root sets and changed files terminates and processes every reachable changed module exactly once. (K4b) nine type visitors and six type relations return on every recursive alias (pair); (K5) treetransform.TransformVisitor copies 16 construct snippets without exception and print-identically; (K4) ExpressionChecker.dangerous_comparison returns (no RecursionError) for every ordered pair of recursive alias types over set/frozenset/list/tuple/dict/Mapping/unions, built by the real front end. Narrow: folding kernels, deferral loops, the daemon work-list and the strict-equality recursion only - the scalar part of 'never an internal failure or hang'. (K6) jump statements (break/continue/return/yield) at every position of nests of up to 2/3 control constructs through the real build: no internal failure, and the blocking 'outside loop/function' errors agree with CPython's compile().",
     "trusted: z3, the pysem raise-condition table in vf/symx.py (validated against CPython on boundary values at start-up), bit_length/pow as axiomatised uninterpreted functions; outside the claim: crashes from program structure, daemon mode",
     "symbolic execution of real Python source with z3 (decision-replay), exhaustive path exploration per operator/kind",
     "DESIGN.md 4/C20",
@@ -42,7 +42,7 @@ check(
 check(
     "C13",
     "other",
-    "bounded symbolic verification of the exit-status chain: the real Errors.format_messages_default, util.count_stats and the status expressions extracted from main.main and dmypy_server on every run are executed on symbolic diagnostics (bounded strings as bit-vector character arrays); obligation: status 0 iff no error-severity diagnostic, 2 iff blockers. (K1) ignore / error-code exactness: the real Errors.add_error_info/is_ignored_error/is_error_code_enabled/generate_unused_ignore_errors and the gate State.generate_unused_ignore_notes driven through the Errors API with solver-chosen errors (line, code, sub-code, blocker), ignore comments (bare, coded, parent codes, several codes, unused-ignore), code states and --warn-unused-ignores; an error is shown iff blocker or enabled and unmatched, unused-ignore appears iff switched on and the comment (or a listed code) suppressed nothing; (K1b) every (error code, ignore code) pair of the real code table; (K1c) the scope of an ignore comment at the top of a module in fastparse (first statement kind, decorators, comment position solver-chosen).",
+    "bounded symbolic verification of the exit-status chain: the real Errors.format_messages_default, util.count_stats and the status expressions extracted from main.main and dmypy_server on every run are executed on symbolic diagnostics (bounded strings as bit-vector character arrays); obligation: status 0 iff no error-severity diagnostic, 2 iff blockers. (K1) ignore / error-code exactness: the real Errors.add_error_info/is_ignored_error/is_error_code_enabled/generate_unused_ignore_errors and the gate State.generate_unused_ignore_notes driven through the Errors API with solver-chosen errors (line, code, sub-code, blocker), ignore comments (bare, coded, parent codes, several codes, unused-ignore), code states and --warn-unused-ignores; an error is shown iff blocker or enabled and unmatched, unused-ignore appears iff switched on and the comment (or a listed code) suppressed nothing; (K1b) every (error code, ignore code) pair of the real code table; (K1c) the scope of an ignore comment at the top of a module in fastparse (first statement kind, decorators, comment position solver-chosen). (K1d) enabling/disabling codes: every real error code and (sub-code, parent) pair x global and per-module none/enable/disable/both through the real process_error_codes / apply_changes / is_error_code_enabled against the documented rules. (K3) sort_messages / sort_within_context / remove_duplicates on 3/4 records with symbolic line, column, priority, message and code: exact removal, notes follow their parents, order.",
     "trusted: z3; file names contain no ':'; --pretty source lines outside the bound; message text printable ASCII up to the stated length",
     "symbolic execution of real Python source with z3 over bounded bit-vector strings",
     "DESIGN.md 4/C13",
@@ -60,7 +60,7 @@ check(
 check(
     "C03",
     "other",
-    "bounded symbolic verification of the daemon's change detection (FileSystemWatcher._find_changed/_update on a stub file system, one step from an arbitrary recorded state) of the symbol-table snapshot differ (astdiff.compare_symbol_table_snapshots against an independent specification over symbolic snapshots), of snapshot_symbol_table/snapshot_definition on real symbol nodes with symbolic kind / module_public / externally visible flags (equal snapshots imply equal visible attributes) and of which triggers DependencyVisitor.add_dependency refuses to record (bounded symbolic strings: exactly those of builtins/typing/mypy_extensions/typing_extensions), and of mro.calculate_mro with the real TypeState (no cached subtype answer about a class survives a change of its bases). Narrow: dependency generation as a whole, AST merge/strip and propagation are whole-program code and are not claimed.",
+    "bounded symbolic verification of the daemon's change detection (FileSystemWatcher._find_changed/_update on a stub file system, one step from an arbitrary recorded state) of the symbol-table snapshot differ (astdiff.compare_symbol_table_snapshots against an independent specification over symbolic snapshots), of snapshot_symbol_table/snapshot_definition on real symbol nodes with symbolic kind / module_public / externally visible flags (equal snapshots imply equal visible attributes) and of which triggers DependencyVisitor.add_dependency refuses to record (bounded symbolic strings: exactly those of builtins/typing/mypy_extensions/typing_extensions), and of mro.calculate_mro with the real TypeState (no cached subtype answer about a class survives a change of its bases). Narrow: dependency generation as a whole, AST merge/strip and propagation are whole-program code and are not claimed. (K6) astmerge.TypeReplaceVisitor on ~64 declared types of a generated module: after replacing class K or enum E no reference to the replaced TypeInfo remains reachable through the type (reflective walk as the independent oracle).",
     "trusted: z3; contract 'a content change changes size or real-valued mtime'; hash injective. Known finding: same-second same-size edit is missed by the daemon.",
     "symbolic execution of real Python source with z3 (decision-replay), replay through in-process dmypy Server vs fresh run",
     "DESIGN.md 4/C03",
@@ -145,7 +145,7 @@ check(
 check(
     "C07",
     "other",
-    "bounded symbolic verification of the coordinator's scheduling kernel: the scheduling loop extracted from build.process_graph and the real BuildManager.submit/submit_to_workers/get_scc_batch/max_batch_size/wait_for_done/wait_for_done_workers run on a shell manager with stubbed transport; the solver chooses the SCC DAG (3/4 SCCs), the size hints, the number of workers (1..3) and, at every wait, which busy workers' responses arrive, and for every ready wave which SCCs find_stale_sccs reports fresh (mixed fresh/stale waves). For every schedule: an SCC is sent only after its dependencies reported interface-done, every SCC is sent exactly once, a worker gets a batch only after its implementation response, the loop terminates with everything done, bookkeeping stays in range. Worker side (W1): the real maybe_load_deps + State.reload_meta on solver-chosen DAGs, already-loaded sets and broadcast interface hashes - every dependency SCC is loaded once in order and carries the interface hash that is in the cache now; (W2) process_stale_scc_interface/_implementation with a recording store - every written record is committed before the next module is written and before the function returns. (W3) generated classes through the real front end: every function enclosing the first assignment to a member of self carries def_or_infer_vars (the interface phase visits only flagged functions). Equality of diagnostics with the sequential build is not claimed (needs real workers).",
+    "bounded symbolic verification of the coordinator's scheduling kernel: the scheduling loop extracted from build.process_graph and the real BuildManager.submit/submit_to_workers/get_scc_batch/max_batch_size/wait_for_done/wait_for_done_workers run on a shell manager with stubbed transport; the solver chooses the SCC DAG (3/4 SCCs), the size hints, the number of workers (1..3) and, at every wait, which busy workers' responses arrive, and for every ready wave which SCCs find_stale_sccs reports fresh (mixed fresh/stale waves). For every schedule: an SCC is sent only after its dependencies reported interface-done, every SCC is sent exactly once, a worker gets a batch only after its implementation response, the loop terminates with everything done, bookkeeping stays in range. Worker side (W1): the real maybe_load_deps + State.reload_meta on solver-chosen DAGs, already-loaded sets and broadcast interface hashes - every dependency SCC is loaded once in order and carries the interface hash that is in the cache now; (W2) process_stale_scc_interface/_implementation with a recording store - every written record is committed before the next module is written and before the function returns. (W3) generated classes through the real front end: every function enclosing the first assignment to a member of self carries def_or_infer_vars (the interface phase visits only flagged functions). Equality of diagnostics with the sequential build is not claimed (needs real workers). (W4) worker.load_states on batches of 2/3 modules: an import error recorded by the coordinator is replayed under the options of its own module (real Errors object; batch order, per-module disabled code, raw data vs parse, ignore comment solver-chosen).",
     "trusted: z3; stubs for send/ready_to_read/receive/response decoding; find_stale_sccs replaced by a solver-chosen split; workers answer each batch with one interface and one implementation response",
     "symbolic execution of real Python source with z3 (decision-replay) over all completion orders within the bound, partitioned over processes",
     "DESIGN.md 4/C07",
@@ -154,7 +154,7 @@ check(
 check(
     "C10",
     "other",
-    "bounded symbolic verification that the ordering kernels do not depend on set iteration order: graph_utils.strongly_connected_components/prepare_sccs/topsort and build.sorted_components_inner/order_ascc/deps_filtered/transitive_dep_hash are executed from a source rewrite in which every set/frozenset (constructor calls, displays, comprehensions) iterates in an order given by solver-chosen ranks (a hash-seed model); graphs over 3 modules (every edge absent/direct/indirect) and State.order permutations are solver-chosen too; the SCC sequence, the order inside SCCs and the token stream fed to the transitive-dependency hash must equal the canonical ones; the real find_stale_sccs/order_ascc_ex on the fully fresh graph with solver-chosen 'module has cached diagnostics' flags must flush cached diagnostics in the canonical order. (H1) two builds in one process with solver-chosen typeshed tables and target versions: after the per-build resets of build.build the known-modules memo gives the second build what a fresh process gets. (S1) messages.best_matches with solver-ranked candidate sets returns the canonical suggestion list. (H2) constraints.infer_constraints on real protocol / NamedTuple / tuple types leaves the shared recursion-guard stacks as it found them. Narrow: whole-run hash-seed independence and independence from earlier builds in the same process are not encodable and not claimed.",
+    "bounded symbolic verification that the ordering kernels do not depend on set iteration order: graph_utils.strongly_connected_components/prepare_sccs/topsort and build.sorted_components_inner/order_ascc/deps_filtered/transitive_dep_hash are executed from a source rewrite in which every set/frozenset (constructor calls, displays, comprehensions) iterates in an order given by solver-chosen ranks (a hash-seed model); graphs over 3 modules (every edge absent/direct/indirect) and State.order permutations are solver-chosen too; the SCC sequence, the order inside SCCs and the token stream fed to the transitive-dependency hash must equal the canonical ones; the real find_stale_sccs/order_ascc_ex on the fully fresh graph with solver-chosen 'module has cached diagnostics' flags must flush cached diagnostics in the canonical order. (H1) two builds in one process with solver-chosen typeshed tables and target versions: after the per-build resets of build.build the known-modules memo gives the second build what a fresh process gets. (S1) messages.best_matches with solver-ranked candidate sets returns the canonical suggestion list. (H2) constraints.infer_constraints on real protocol / NamedTuple / tuple types leaves the shared recursion-guard stacks as it found them. Narrow: whole-run hash-seed independence and independence from earlier builds in the same process are not encodable and not claimed. (S2) Options.select_options_affecting_cache with every set-valued keyed option as a solver-ordered set: the value list hashed into cache records is order-independent.",
     "trusted: z3; set iteration modelled as a per-run total order on elements; typed token buffer instead of WriteBuffer for the hash input",
     "symbolic execution of a source rewrite of the real code with solver-chosen set iteration orders; replay under 48 PYTHONHASHSEEDs",
     "DESIGN.md 4/C10",
